@@ -49,6 +49,7 @@ def gen_cases(tier, seed):
         c['prop'] = PROP
         cases.append(c)
     for i, c in enumerate(cases):
+        c.setdefault('timeout', 150 if c.get('shape') in ('modgen', 'corpus') or str(c.get('shape')).startswith('exhaustion') else 40)
         c['want_sample'] = i % 400 == 0
     return cases
 
